@@ -89,7 +89,7 @@ CHECK_DEADLOCK FALSE
 """
 
 
-def design_phase(rep, tier):
+def design_phase(rep, tier, prop):
     """SQL-level design layer of the sqlite backend refines AwStore; the pinned tree's statements are refuted."""
     q = tier == "quick"
     size = dict(datas='"d1", "d2"', rows=2) if q else dict(datas='"d1"', rows=3)
@@ -104,6 +104,31 @@ def design_phase(rep, tier):
         if r["ok"]:
             raise tlc.TLCFailure("negative control '%s' was not refuted by TLC" % name)
         neg[name] = "refuted after %d states" % r["states"]
+    if prop != "C02":
+        rep.notes["design_layer_negative_controls"] = neg
+        return
+    # the in-memory backend: Python list per bucket, max+1 ids, stable sort + reverse, replace_last = sorted()[-1]
+    MEM = """CONSTANTS
+  BucketNames = {"A"}
+  Ticks = {0, 1}
+  Durs = {0, 1}
+  Datas = {%s}
+  MaxLen = 3
+  IdIsMaxPlusOne = %s
+  ReplaceLastSorted = %s
+SPECIFICATION Spec
+INVARIANT IdsUniqueInList
+PROPERTY Refines
+CHECK_DEADLOCK FALSE
+"""
+    res = tlc.model_check("AwMemoryDesign", MEM % ('"d1"' if q else '"d1", "d2"', "TRUE", "TRUE"), tag="mc_memdesign", heap="8g")
+    rep.add_model(res, "AwMemoryDesign (list per bucket, ids = max+1 with reuse of dead ids, stable sort by timestamp reversed, replace_last = sorted()[-1]) refines AwStore; "
+                       "the limit-1 read and replace_last agree under timestamp ties; ids stay unique")
+    for name, a, b in (("id = len(list)", "FALSE", "TRUE"), ("replace_last = max(key=timestamp) (first of several newest)", "TRUE", "FALSE")):
+        r = tlc.model_check("AwMemoryDesign", MEM % ('"d1"', a, b), tag="mc_memdesign_neg", expect_ok=False)
+        if r["ok"]:
+            raise tlc.TLCFailure("negative control '%s' was not refuted by TLC" % name)
+        neg["memory: " + name] = "refuted after %d states" % r["states"]
     rep.notes["design_layer_negative_controls"] = neg
 
 
@@ -210,7 +235,7 @@ def run(prop, tier, seed, replay=None):
         res = tlc.model_check("MC_AwStore", MC_EVENTS_QUICK if tier == "quick" else MC_EVENTS_THOROUGH, tag="mc_ev")
         rep.add_model(res, "AwStore event instance: 2 buckets, 3 ids, ticks {0,1}, durations {0,1}, <=2 events per bucket, all ops incl. bulk upsert and out-of-contract ids")
         if prop in ("C02", "C04"):
-            design_phase(rep, tier)
+            design_phase(rep, tier, prop)
     # ---- 2. behaviours: TLC simulation of AwStoreGen + random abstract histories
     behaviours = []
     if replay is not None:
